@@ -39,7 +39,8 @@ OPTION_NAMES = list(DEFAULTS)
 VALID = {  # first entry is the default
     'raw': [False, True, 'auto'],
     'trivia': [True, False, 'all', 'block', 'none', 'all+1', 'block-2', 'none+', '+1', 3, (), ('line',), ('all', 'block'),
-               ('block+1', 'line'), (False, 'all-1'), (2, 5)],
+               ('block+1', 'line'), (False, 'all-1'), (2, 5), ('block', 'line'), ('all+1', 'block-1'), (False, 'all'),
+               ('block', False)],
     'coerce': [True, False],
     'promote': [True, False, 'identifier', 'all'],
     'elif_': [True, False],
@@ -107,6 +108,14 @@ def mjson(kw: dict, unknown=()) -> list:
         valid = known and any(vrepr(v) == vrepr(x) for x in VALID[n])
         out.append({'n': n, 'v': vrepr(v) if valid or not known else '!bad:' + vrepr(v), 'known': known, 'valid': valid})
     return out
+
+
+def classifiable(kw: dict) -> bool:
+    """Is every entry either an undocumented name or a value listed in the documented tables above?"""
+    for n, v in kw.items():
+        if n in DEFAULTS and not any(vrepr(v) == vrepr(x) for x in VALID[n] + INVALID[n]):
+            return False
+    return True
 
 
 def scrub(s: str) -> str:
@@ -427,6 +436,29 @@ class Env:
                 'opts': dict(plan.opts), 'desc': f'{plan.kind}.{plan.field}/{plan.form}/{plan.op}/{plan.corrupt or ""}'}
 
 
+# concrete form of Threads!Edit(r, n, o, ov, fault): reset statement n of the thread's tree to a fixed text, then one
+# edit whose result depends on option o (given per call in `kw` or taken from the thread's defaults)
+TEDIT = {
+    'pars': ('x = b', lambda st, kw: st.value.replace(FST('(a)', 'expr'), **kw)),
+    'norm': ('s = {a}', lambda st, kw: st.value.put_slice(None, 0, 1, **kw)),
+    'elif_': ('if a: pass\nelse: pass', lambda st, kw: st.put_slice('if b: pass', 0, 1, 'orelse', **kw)),
+    'pep8space': ('y = 1', lambda st, kw: st.replace('def f(): pass', **kw)),
+    'op_side': ('c = a < b > c', lambda st, kw: st.value.put_slice(None, 1, 2, **kw)),
+    'coerce': ('f(a)', lambda st, kw: st.value.put_slice(FST('x', 'expr'), 0, 1, 'args', **kw)),
+    'trivia': ('t = 1  # tail', lambda st, kw: st.replace('u = 2', **kw)),
+}
+TEDIT_SRC = 'p = 0\nq = 0\n'
+
+
+def tedit(root, n, opt, kw, fault):
+    reset, sens = TEDIT[opt]
+    root.body[n].replace(reset)
+    if fault:
+        root.body[n].value.replace('1 +', **kw) if hasattr(root.body[n], 'value') else root.body[n].replace('1 +', **kw)
+    else:
+        sens(root.body[n], kw)
+
+
 # ----------------------------------------------------------------------------------------------------------------------
 # the interpreter: one real thread executes commands; blocks are real `with FST.options(...)` statements
 
@@ -512,6 +544,18 @@ def interpret(ch, tid, srcs=(), reglog=None, counter=None):
                     r['res'] = probe(c['probes'], ov)
             elif k == 'edit':
                 r.update(env.edit(c['tree'], c['seed']))
+            elif k == 'tedit':
+                root = env.roots[c['tree']]
+                if c.get('step'):
+                    def park(tag):
+                        ch.put({'k': 'yield', 'tag': tag})
+                        ch.get()
+                    _TL.stepper = park
+                try:
+                    tedit(root, c['node'], c['opt'], c['kw'], c['fault'])
+                finally:
+                    _TL.stepper = None
+                    r['res'] = tree_digest(root)
             elif k == 'spawn':
                 pass
             else:
